@@ -46,6 +46,13 @@ def term(r: R, chk, entry: str, floor: int = 3):
         if ctx and any(f.qual == q for c in ctx.calls for f in c.callees):
             rec.append(q)
     chk.extra["recursive_functions_reachable"] = sorted(rec)
+    # recursion: every (directly) recursive function reachable from the entry has a path that returns without the recursive
+    # call having returned (the model's summary is bottom exactly when every path needs the recursion to come back first)
+    for q in sorted(rec):
+        ctx = r.A.roots[q]
+        ok = ctx.summary.ret is not None
+        chk.ob("TERM", f"{q}: recursion has a base case (a path returns without the recursive call)", ok, loc=f"{ctx.fi.module}.py:{ctx.fi.node.lineno}",
+               detail="" if ok else f"{q}: every path to a return goes through the recursive call: the recursion has no base case and never returns (reached from {entry})", func=q, construct="recursion without base case")
     return funcs
 
 
